@@ -188,6 +188,13 @@ func runCheck(prop, tier string, seed int) (int, *Evidence) {
 			violations = append(violations, o)
 		}
 	}
+	for _, r := range results {
+		for _, o := range r.Obls {
+			if o.Result == "error" {
+				return fail("solver error on %s: %s", o.Name, trunc(o.Model, 300))
+			}
+		}
+	}
 	if len(vacuous) > 0 {
 		return fail("vacuity: assumptions are contradictory at %s", strings.Join(vacuous, ", "))
 	}
